@@ -1601,7 +1601,7 @@ pub fn merged_pointer_check(project: &Project, must: &[String], rep: &mut Report
 }
 
 fn run(cfg: &Cfg) -> Report {
-    let shards = cfg.tier.pick(256usize, 2048usize);
+    let shards = cfg.tier.pick(768usize, 2048usize);
     let per_shard = cfg.tier.pick(120usize, 320usize);
     let mut rep = par_shards(cfg, "c14", shards, |idx, rng, rep| {
         for _ in 0..4 {
